@@ -1133,6 +1133,9 @@ func (t *Tr) runDefers() {
 }
 
 func (t *Tr) isNoEffect(key string) bool {
+	if _, has := t.w.CS.ByName[key]; has {
+		return false // under contract (lock depth accounting): run it
+	}
 	if strings.HasSuffix(key, ".Unlock") || strings.HasSuffix(key, ".RUnlock") {
 		return true
 	}
